@@ -6,9 +6,13 @@
    product a line denotes; [dependent_products fuel w top topological] is
    Eups.getDependentProducts; [users idx x ov] is Uses.users on the index built by Eups.uses.
    [step w p q]: some line of the table of p denotes q.  [reach_plus w p q]: one or more steps. *)
+From Eupsv Require Import Model.SetupText Model.DepWalkText.
+From Eupsv Require Import Model.Resolve Model.ResolveSpec Model.ResolveReal Proofs.ResolveReal.
 From Eupsv Require Import Base.Base Model.Graph Proofs.GraphLib Proofs.GraphWalk Proofs.GraphListing
      Proofs.GraphLayers Proofs.GraphTarjan Proofs.GraphPartition Proofs.GraphOrder
      Proofs.GraphTarjanLib Proofs.GraphTarjanFull Proofs.GraphTotal Proofs.GraphBuild.
+From Eupsv Require Import Model.DepWalk Proofs.DepWalkConst Proofs.DepWalkSim Proofs.DepWalkComplete Proofs.DepWalkEdges
+     Proofs.DepWalkPins Proofs.DepWalkMain Proofs.DepWalkCheck Generated.Config.
 Open Scope string_scope.
 
 (* ------------------------------------------------------------------ completeness of the listing *)
@@ -544,3 +548,390 @@ Proof.
     split; [eexists; split; [vm_compute; reflexivity|]; vm_compute; reflexivity|].
     vm_compute. reflexivity.
 Qed.
+
+
+(* ==================================================================================================
+   The dependency walk with the version resolver INSIDE (Model/DepWalk.v, Model/DepWalkText.v).
+
+   Above, a world gives for every table line the product it denotes (the field eres of an edge): an input.
+   Below, the model is Table.dependencies itself - it calls the resolver of C03 (Model/Resolve.v) for every
+   line it meets, under the VRO Action.processArgs builds for the line - and getDependentProducts on top of
+   it; the input is the database (stacks, declarations per flavor, chain files), the dependency lines of the
+   tables (Model/DepWalkText.v derives them from the table TEXTS) and the VRO of the command.
+
+   Vocabulary: a [dline] is one setupRequired / setupOptional line after processArgs (name, version,
+   bracketed expression, -t tags, -k, optional, -j); [line_vro c vro l] the VRO in force for the line and for
+   everything below it; [lookup_at ... lv l] the loop over the flavors around findProductFromVRO;
+   [tgt_of l o] the listed product: the one found, or the stub (name, version text);
+   [dep_products ... W vro follow fuel top topological check] = getDependentProducts;
+   [plain_tables (line_vro c) vro T]: no line of T changes the VRO (no recognised -t tag, no -k);
+   [no_just T]: no line carries -j;  [dworld_ok db flavors T]: the database is well formed (C03), every
+   product declared for a flavor of the list has a table in T and every table belongs to such a product.
+   ================================================================================================== *)
+
+(* ------------------------------------------------------------------ (a) every edge followed is the designated product *)
+
+(* whatever the database, the stacks on the path, the flavor list and the VRO in force: the product the walk
+   lists for a line is the one the Version Resolution Order designates (C03: designates, at a depth other than
+   0 - the top-level rule never applies to a dependency) for the request the line makes *)
+Theorem walked_edge_is_designated vcmp vmatch c db flavors lv l d :
+  wf_db db = true -> vcmp_ok vcmp db ->
+  lookup_at vcmp vmatch c db flavors lv l = designates vcmp vmatch c db flavors (S d) lv (dreq l).
+Proof. intros WF HT. exact (vro_lookup_designates vcmp vmatch c db WF HT flavors lv (dreq l) d). Qed.
+Print Assumptions walked_edge_is_designated.
+
+(* ... with the comparator and the matcher of C10, which the extracted model runs *)
+Theorem walked_edge_is_designated_real c db flavors lv l d :
+  wf_db db = true -> (forall n, real_names_ok (names_of db n) = true) ->
+  lookup_at vcmp_real vmatch_real c db flavors lv l = designates_real c db flavors (S d) lv (dreq l).
+Proof.
+  intros WF OKn. apply walked_edge_is_designated; [exact WF|]. intros n. apply real_total_order, OKn.
+Qed.
+Print Assumptions walked_edge_is_designated_real.
+
+(* what is designated is declared: in some stack of the path, for the flavor it is returned with *)
+Theorem walked_edge_is_declared vcmp vmatch c db flavors lv l p :
+  wf_db db = true -> vcmp_ok vcmp db ->
+  lookup_at vcmp vmatch c db flavors lv l = Some p ->
+  exists f s, In f flavors /\ In s db /\ Resolve.declared s (dl_name l) (fd_version p) f = true /\
+              fd_name p = dl_name l /\ fd_flavor p = f.
+Proof.
+  intros WF HT H. destruct (vro_lookup_declared vcmp vmatch c db WF HT flavors lv (dreq l) p H) as [f [Hf [s [Hs [D [N F]]]]]].
+  exists f, s. auto.
+Qed.
+Print Assumptions walked_edge_is_declared.
+
+(* ------------------------------------------------------------------ (b) the listing is exactly what is reached *)
+
+(* [reached lvro lk lkp vro T top q]: q is reached from top through the lines of the tables as the look-ups
+   resolve them under vro - through lines without -j, then one line of any kind (a -j line is followed to its
+   product and no further).  For every database and every look-up function (in particular the resolver of C03),
+   every table set whose lines hand the VRO down unchanged, cycles and -j lines included, and any fuel above the
+   number of tables: the listing exists (never Err OutOfFuel) and holds exactly the products reached, the top
+   product excluded. *)
+Theorem resolved_listing_complete lvro lk lkp pref_ok vro fuel TA TB top :
+  plain_tables lvro vro TA -> length TA < fuel ->
+  exists l, dep_products2 lvro lk lkp pref_ok vro fuel TA TB top false false = Ok l /\
+            forall q, In q (map enode l) <-> q <> top /\ reached lvro lk lkp vro TA top q.
+Proof. exact (listing_plain_general lvro lk lkp pref_ok vro fuel TA TB top). Qed.
+Print Assumptions resolved_listing_complete.
+
+(* the same for the topological listing (and with checkCycles), whatever tables the second walk reads - in
+   exact mode they are not the tables of the first; it names every product once *)
+Theorem resolved_listing_topological_complete lvro lk lkp pref_ok vro fuel TA TB top topological check l :
+  plain_tables lvro vro TA -> length TA < fuel ->
+  dep_products2 lvro lk lkp pref_ok vro fuel TA TB top topological check = Ok l ->
+  (forall q, In q (map enode l) <-> q <> top /\ reached lvro lk lkp vro TA top q) /\
+  (topological || check = true -> NoDup (map enode l)).
+Proof. exact (listing_general lvro lk lkp pref_ok vro fuel TA TB top topological check l). Qed.
+Print Assumptions resolved_listing_topological_complete.
+
+(* FULL STATEMENT NOT PROVED (and false of the code): the two theorems without plain_tables.  A -t tag (or -k)
+   on a line stays in force for the whole table walk below that line, and a table is walked once, the first
+   time it is reached: what a line of that table denotes then depends on the way the walk came, and the
+   listing is not the closure of a relation between products (line_tag_is_inherited below). *)
+
+(* ------------------------------------------------------------------ (c) the theorems above, on the edges the walk computes *)
+
+(* the resolved edges agree with the declarations: wf_world, the hypothesis of the build-order and cycle theorems
+   above, is a THEOREM about the edges the resolver computes - under any VRO that holds a version entry (every
+   VRO of the shipped configuration does: shipped_vro_has_version_entries) *)
+Theorem resolved_edges_wellformed vcmp vmatch c db flavors vro T :
+  dworld_ok db flavors T -> vcmp_ok vcmp db -> existsb is_version_like vro = true ->
+  wf_world (resolved_world vcmp vmatch c db flavors vro T).
+Proof. exact (resolved_world_wf vcmp vmatch c db flavors vro T). Qed.
+Print Assumptions resolved_edges_wellformed.
+
+(* a step of that world is a line of a table and the product the resolver designates for it (or its stub) *)
+Theorem resolved_step_is_designated_line vcmp vmatch c db flavors vro T p q :
+  step (resolved_world vcmp vmatch c db flavors vro T) p q <->
+  exists l, dline_in T p l /\ q = tgt_of l (lookup_line vcmp vmatch c db flavors vro l).
+Proof. apply step_edges_iff. Qed.
+Print Assumptions resolved_step_is_designated_line.
+
+(* and without -j lines being reached (b) is being reachable in that world (walk_complete above) *)
+Theorem reached_is_reachable_in_resolved_world vcmp vmatch c db flavors vro T lkp p q :
+  no_just T ->
+  (dreach (lookup_line vcmp vmatch c db flavors vro) lkp T [] p q <->
+   reach_plus (resolved_world vcmp vmatch c db flavors vro T) p q).
+Proof. apply reached_is_reach_plus. Qed.
+Print Assumptions reached_is_reachable_in_resolved_world.
+
+(* getDependentProducts with the resolver inside IS getDependentProducts of Model/Graph.v on the world of the
+   resolved edges, plain and topological: every theorem of the first part of this file applies to it with
+   wf_world discharged.  _partial: tables without -j lines, whose lines do not change the VRO, read alike by the
+   two walks (no condition on the exact type); pinned names are looked up under the flavors the walk tries (the
+   code after proposed_fixes/C13-pinned-lookup-fallback-flavor; pinned_lookup_refuted_pinned below).
+   FULL STATEMENT NOT PROVED: the same without no_just / plain_tables and with two table sets.  With -j the
+   ordering walk does not read the table below the line (no order is promised there); with inherited tags there
+   is no world of edges (see above); in exact mode the ordering walk reads the inexact branches, which are other
+   tables than the ones listed. *)
+Theorem composed_listing_is_graph_listing_partial vcmp vmatch c db flavors pf vro T follow fuel top topological l :
+  dworld_ok db flavors T -> vcmp_ok vcmp db -> existsb is_version_like vro = true ->
+  incl flavors pf -> incl pf flavors -> no_just T -> plain_tables (line_vro c) vro T -> length T < fuel ->
+  dep_products vcmp vmatch c flavors pf (mkDworld db T T) vro follow fuel top topological false = Ok l ->
+  dependent_products fuel (resolved_world vcmp vmatch c db flavors vro T) top topological = Ok l.
+Proof.
+  intros OK HT HV P1 P2 NJ PL Hf H. unfold dep_products in H. cbn [dw_db dw_exact dw_inexact] in H.
+  destruct follow; exact (composed_is_graph vcmp vmatch c db flavors pf vro T OK HT HV P1 P2 NJ PL _ fuel top topological l Hf H).
+Qed.
+Print Assumptions composed_listing_is_graph_listing_partial.
+
+(* the build order, from the database and the tables alone: every listed product that needs another listed
+   product (a line of its table designates it) comes strictly earlier, unless the two need each other *)
+Theorem composed_build_order_safe_outside_cycles_partial vcmp vmatch c db flavors pf vro T follow fuel top l :
+  dworld_ok db flavors T -> vcmp_ok vcmp db -> existsb is_version_like vro = true ->
+  incl flavors pf -> incl pf flavors -> no_just T -> plain_tables (line_vro c) vro T -> length T < fuel ->
+  dep_products vcmp vmatch c flavors pf (mkDworld db T T) vro follow fuel top true false = Ok l ->
+  let w := resolved_world vcmp vmatch c db flavors vro T in
+  forall x y, In x l -> In y l -> step w (enode x) (enode y) -> ~ reach_plus w (enode y) (enode x) ->
+    edepth x < edepth y.
+Proof.
+  intros OK HT HV P1 P2 NJ PL Hf H w.
+  apply (build_order_safe_outside_cycles w top fuel l).
+  - unfold w. rewrite resolved_world_length. exact Hf.
+  - exact (resolved_world_wf vcmp vmatch c db flavors vro T OK HT HV).
+  - exact (composed_listing_is_graph_listing_partial vcmp vmatch c db flavors pf vro T follow fuel top true l OK HT HV P1 P2 NJ PL Hf H).
+Qed.
+Print Assumptions composed_build_order_safe_outside_cycles_partial.
+
+Theorem composed_build_order_safe_partial vcmp vmatch c db flavors pf vro T follow fuel top l :
+  dworld_ok db flavors T -> vcmp_ok vcmp db -> existsb is_version_like vro = true ->
+  incl flavors pf -> incl pf flavors -> no_just T -> plain_tables (line_vro c) vro T -> length T < fuel ->
+  acyclic_from (resolved_world vcmp vmatch c db flavors vro T) top ->
+  dep_products vcmp vmatch c flavors pf (mkDworld db T T) vro follow fuel top true false = Ok l ->
+  forall x y, In x l -> In y l -> step (resolved_world vcmp vmatch c db flavors vro T) (enode x) (enode y) ->
+    edepth x < edepth y.
+Proof.
+  intros OK HT HV P1 P2 NJ PL Hf Ha H.
+  apply (build_order_safe (resolved_world vcmp vmatch c db flavors vro T) top fuel l).
+  - rewrite resolved_world_length. exact Hf.
+  - exact (resolved_world_wf vcmp vmatch c db flavors vro T OK HT HV).
+  - exact Ha.
+  - exact (composed_listing_is_graph_listing_partial vcmp vmatch c db flavors pf vro T follow fuel top true l OK HT HV P1 P2 NJ PL Hf H).
+Qed.
+Print Assumptions composed_build_order_safe_partial.
+
+(* the cycle check: the graph the composed model hands to topologicalSort raises exactly when two different
+   products of the closure need each other through designated edges *)
+Theorem composed_cycle_reported_exactly_partial vcmp vmatch c db flavors pf vro T follow fuel top g :
+  dworld_ok db flavors T -> vcmp_ok vcmp db -> existsb is_version_like vro = true ->
+  incl flavors pf -> incl pf flavors -> no_just T -> plain_tables (line_vro c) vro T -> length T < fuel ->
+  dep_graph vcmp vmatch c flavors pf (mkDworld db T T) vro follow fuel top = Ok g ->
+  (proper_cycle (resolved_world vcmp vmatch c db flavors vro T) top -> check_cycles g = Err Refused) /\
+  (~ proper_cycle (resolved_world vcmp vmatch c db flavors vro T) top -> exists NL, check_cycles g = Ok NL).
+Proof.
+  intros OK HT HV P1 P2 NJ PL Hf H. unfold dep_graph in H. cbn [dw_db dw_exact dw_inexact] in H.
+  assert (G : topo_graph fuel (resolved_world vcmp vmatch c db flavors vro T) top = Ok g).
+  { destruct follow; exact (composed_graph_is_graph vcmp vmatch c db flavors pf vro T OK HT HV P1 P2 NJ PL _ fuel top g Hf H). }
+  assert (Hf' : length (resolved_world vcmp vmatch c db flavors vro T) < fuel) by (rewrite resolved_world_length; exact Hf).
+  pose proof (resolved_world_wf vcmp vmatch c db flavors vro T OK HT HV) as Hw.
+  split; intros Hc.
+  - exact (cycle_reported_exactly _ top fuel g Hf' Hw G Hc).
+  - exact (no_cycle_no_report _ top fuel g Hf' Hw G Hc).
+Qed.
+Print Assumptions composed_cycle_reported_exactly_partial.
+
+(* uses, from the database and the tables alone: Y is reported as a user of X exactly when Y has a table and
+   reaches, through designated edges, a product named X [of that version] *)
+Theorem composed_uses_inverse_partial vcmp vmatch c db flavors pf vro T fuel idx x ov us y :
+  dworld_ok db flavors T -> vcmp_ok vcmp db -> existsb is_version_like vro = true ->
+  incl flavors pf -> incl pf flavors -> no_just T -> plain_tables (line_vro c) vro T -> length T < fuel ->
+  dep_uses_index vcmp vmatch c flavors pf (mkDworld db T T) vro fuel = Ok idx -> users idx x ov = Ok us ->
+  let w := resolved_world vcmp vmatch c db flavors vro T in
+  (In y (map cuser us) <->
+   In y (map fst T) /\ exists q, q <> pnode y /\ reach_plus w (pnode y) q /\ matches x ov q).
+Proof.
+  intros OK HT HV P1 P2 NJ PL Hf Hi Hu w.
+  assert (E : map fst w = map fst T).
+  { unfold w, resolved_world, edges_world. rewrite map_map. reflexivity. }
+  rewrite <- E. apply (uses_inverse_reachability fuel w idx x ov us y).
+  - unfold w. rewrite resolved_world_length. exact Hf.
+  - exact (composed_index_is_graph_index vcmp vmatch c db flavors pf vro T OK HT HV P1 P2 NJ PL fuel idx Hf Hi).
+  - exact Hu.
+Qed.
+Print Assumptions composed_uses_inverse_partial.
+
+(* ------------------------------------------------------------------ the VROs of the shipped configuration *)
+
+(* eups list takes -t tags, -e and a version; whatever they are (every ordered choice of at most two tags among
+   current, stable, beta), the VRO selectVRO builds from the shipped configuration holds a version entry and no
+   keep entry *)
+Definition list_tag_choices : list (list str) :=
+  let tags := [lit "current"; lit "stable"; lit "beta"] in
+  [[]] ++ map (fun x => [x]) tags ++ flat_map (fun x => map (fun y => [x; y]) (remove_str x tags)) tags.
+Definition list_opts : list opts :=
+  flat_map (fun x => flat_map (fun vn => map (fun ts => mkOpts false x false ts [] false vn) list_tag_choices)
+                              [false; true]) [false; true].
+Definition cfg_beta : config := site_config [lit "beta"] [].
+
+Theorem shipped_vro_has_version_entries o :
+  In o list_opts ->
+  exists vro, select_vro cfg_beta o = Ok vro /\ existsb is_version_like vro = true /\ mem_entry EKeep vro = false /\
+              vro_pref_ok cfg_beta vro = true.
+Proof.
+  assert (H : forallb (fun o => match select_vro cfg_beta o with
+                                | Ok vro => existsb is_version_like vro && negb (mem_entry EKeep vro) && vro_pref_ok cfg_beta vro
+                                | Err _ => false
+                                end) list_opts = true) by (vm_compute; reflexivity).
+  rewrite forallb_forall in H. intros Ho. specialize (H o Ho).
+  destruct (select_vro cfg_beta o) as [vro|]; [|discriminate]. exists vro. split; [reflexivity|].
+  apply andb_true_iff in H as [H H3]. apply andb_true_iff in H as [H1 H2]. apply negb_true_iff in H2. auto.
+Qed.
+Print Assumptions shipped_vro_has_version_entries.
+
+(* ------------------------------------------------------------------ witnesses *)
+
+Definition dl (n : string) (v : option string) (o : bool) : dline :=
+  mkDline (lit n) (option_map lit v) None [] false o false.
+Definition dt (n v : string) (ls : list dline) : (str * str) * list dline := ((lit n, lit v), ls).
+Definition decl (n v f : string) : str * str * str := (lit n, lit v, lit f).
+Definition cur (n f v : string) : str * str * str * str := (lit n, lit f, lit "current", lit v).
+Definition two_flavors : list str := [lit "Linux64"; lit "generic"].
+Definition vro_default : list ventry := [EType (lit "exact"); ECommandLine; EVersion; EVersionExpr; ETag (lit "current")].
+
+(* a diamond with two versions of b (a 1 names b 1, c 1 takes the current one, b 2), an optional product that is
+   not declared (ghost), and a product declared under the fall-back flavor (d) *)
+Definition db_diamond : dbv :=
+  [ mkStack (lit "s")
+      [ decl "a" "1" "Linux64"; decl "b" "1" "Linux64"; decl "b" "2" "Linux64"; decl "c" "1" "Linux64";
+        decl "d" "1" "generic"; decl "e" "1" "Linux64" ]
+      [ cur "a" "Linux64" "1"; cur "b" "Linux64" "2"; cur "c" "Linux64" "1"; cur "d" "generic" "1";
+        cur "e" "Linux64" "1" ] ].
+Definition T_diamond : dtables :=
+  [ dt "a" "1" [dl "b" (Some "1") false; dl "c" None true; dl "ghost" None true];
+    dt "b" "1" [dl "d" None false];
+    dt "b" "2" [dl "d" (Some "1") false];
+    dt "c" "1" [dl "b" None false];
+    dt "d" "1" [dl "e" (Some "1") false];
+    dt "e" "1" [] ].
+
+Example composed_hypotheses_inhabited :
+  select_vro default_config (mkOpts false false false [] [] false true) = Ok vro_default /\
+  dworld_ok db_diamond two_flavors T_diamond /\ vcmp_ok vcmp_simple db_diamond /\
+  existsb is_version_like vro_default = true /\ no_just T_diamond /\
+  plain_tables (line_vro default_config) vro_default T_diamond /\
+  (* the plain listing: depth first, b 1 before c 1, the stub of ghost at the end *)
+  dep_products vcmp_simple vmatch_simple default_config two_flavors two_flavors (mkDworld db_diamond T_diamond T_diamond)
+               vro_default true 8 (nd "a" "1") false false
+  = Ok [ (nd "b" "1", false, 1); (nd "d" "1", false, 2); (nd "e" "1", false, 3); (nd "c" "1", true, 1);
+         (nd "b" "2", false, 2); (nd "d" "1", false, 3); (stub "ghost" None, true, 1) ] /\
+  (* the topological listing: both versions of b before d, d before e *)
+  dep_products vcmp_simple vmatch_simple default_config two_flavors two_flavors (mkDworld db_diamond T_diamond T_diamond)
+               vro_default true 8 (nd "a" "1") true false
+  = Ok [ (nd "c" "1", true, 2); (nd "b" "1", false, 3); (nd "b" "2", false, 3); (nd "d" "1", false, 4);
+         (nd "e" "1", false, 5); (stub "ghost" None, true, 5) ].
+Proof.
+  split; [vm_compute; reflexivity|].
+  split; [apply dworld_ok_b_sound; vm_compute; reflexivity|].
+  split; [apply vcmp_ok_b_sound; vm_compute; reflexivity|].
+  split; [vm_compute; reflexivity|].
+  split; [apply no_just_b_sound; vm_compute; reflexivity|].
+  split; [apply plain_tables_b_sound; vm_compute; reflexivity|].
+  split; vm_compute; reflexivity.
+Qed.
+
+(* the pinned tree looked the pinned names of the second walk up under the running flavor only: d 1, declared under
+   generic, becomes a stub there, its edge to e 1 is lost and e 1 is listed BEFORE the product that needs it *)
+Example pinned_lookup_refuted_pinned :
+  exists l dd de,
+    dep_products vcmp_simple vmatch_simple default_config two_flavors [lit "Linux64"]
+                 (mkDworld db_diamond T_diamond T_diamond) vro_default true 8 (nd "a" "1") true false = Ok l /\
+    step (resolved_world vcmp_simple vmatch_simple default_config db_diamond two_flavors vro_default T_diamond)
+         (nd "d" "1") (nd "e" "1") /\
+    In (nd "d" "1", false, dd) l /\ In (nd "e" "1", false, de) l /\ de <= dd.
+Proof.
+  eexists _, _, _. split; [vm_compute; reflexivity|]. split.
+  - apply step_edges_iff. exists (dl "e" (Some "1") false). split; [|vm_compute; reflexivity].
+    exists [dl "e" (Some "1") false]. split; [vm_compute; reflexivity | left; reflexivity].
+  - simpl. intuition.
+Qed.
+
+(* a cycle through the top product, from the database and the tables alone: the walk ends, the cycle check raises *)
+Definition db_cycle : dbv :=
+  [ mkStack (lit "s") [ decl "x" "1" "Linux64"; decl "y" "1" "Linux64" ]
+            [ cur "x" "Linux64" "1"; cur "y" "Linux64" "1" ] ].
+Definition T_cycle : dtables := [ dt "x" "1" [dl "y" None false]; dt "y" "1" [dl "x" (Some "1") false] ].
+
+Example composed_cycle_is_reported :
+  dep_products vcmp_simple vmatch_simple default_config two_flavors two_flavors (mkDworld db_cycle T_cycle T_cycle)
+               vro_default true 4 (nd "x" "1") false false = Ok [ (nd "y" "1", false, 1); (nd "y" "1", false, 3) ] /\
+  dep_products vcmp_simple vmatch_simple default_config two_flavors two_flavors (mkDworld db_cycle T_cycle T_cycle)
+               vro_default true 4 (nd "x" "1") true true = Err Refused.
+Proof. split; vm_compute; reflexivity. Qed.
+
+(* a -j line is followed to its product and no further: b 1 is listed, d 1 - reached only through it - is not *)
+Example just_line_stops_the_walk :
+  dep_products vcmp_simple vmatch_simple default_config two_flavors two_flavors
+               (mkDworld db_diamond [ dt "a" "1" [mkDline (lit "b") (Some (lit "1")) None [] false false true];
+                                      dt "b" "1" [dl "d" None false]; dt "d" "1" [] ] [])
+               vro_default true 5 (nd "a" "1") false false = Ok [ (nd "b" "1", false, 1) ].
+Proof. vm_compute. reflexivity. Qed.
+
+(* a -t tag on a line stays in force below it.  top needs m through a line carrying -t beta, and n; m and n both
+   need lib without a version; current names lib 1, beta names lib 2.  Under m the bare line denotes lib 2, under
+   n lib 1: the table of a product is not one list of edges, plain_tables does not hold. *)
+Definition db_tags : dbv :=
+  [ mkStack (lit "s")
+      [ decl "top" "1" "Linux64"; decl "m" "1" "Linux64"; decl "n" "1" "Linux64"; decl "lib" "1" "Linux64"; decl "lib" "2" "Linux64" ]
+      [ cur "top" "Linux64" "1"; cur "m" "Linux64" "1"; cur "n" "Linux64" "1"; cur "lib" "Linux64" "1";
+        (lit "lib", lit "Linux64", lit "beta", lit "2") ] ].
+Definition T_tags : dtables :=
+  [ dt "top" "1" [mkDline (lit "m") None None [lit "beta"] false false false; dl "n" None false];
+    dt "m" "1" [dl "lib" None false]; dt "n" "1" [dl "lib" None false]; dt "lib" "1" []; dt "lib" "2" [] ].
+
+Example line_tag_is_inherited :
+  plain_tables_b cfg_beta vro_default T_tags = false /\
+  dep_products vcmp_simple vmatch_simple cfg_beta two_flavors two_flavors (mkDworld db_tags T_tags T_tags)
+               vro_default true 7 (nd "top" "1") false false
+  = Ok [ (nd "m" "1", false, 1); (nd "lib" "2", false, 2); (nd "n" "1", false, 1); (nd "lib" "1", false, 2) ].
+Proof. split; vm_compute; reflexivity. Qed.
+
+(* from the TEXT of a table file to the lines the walk reads (Model/DepWalkText.v: the parser of C11, then
+   Action.processArgs): version and bracketed expression, a relational version, -j, -t, the branch of the exact
+   type, a line passed over (--external), and the implicit product line at the end *)
+Definition sample_table : str :=
+  lit "setupRequired(b 1.0 [>= 1.0])
+setupOptional(c >= 2)
+if (type == exact) {
+   setupRequired(d -j 1.1)
+} else {
+   setupRequired(d -t beta)
+}
+setupRequired(x --external)
+envSet(A_DIR, ${PRODUCT_DIR})
+".
+Definition sample_product : dtext :=
+  mkDtext (lit "a") (lit "1") (lit "Linux64") (lit "/s/Linux64/a/1") (lit "/s") sample_table.
+
+Example table_text_to_lines :
+  lines_of_text (mkTconfig [lit "exact"] [lit "implicitProducts"]) (lit "Linux64") sample_product
+  = Ok [ mkDline (lit "b") (Some (lit "1.0")) (Some (lit ">= 1.0")) [] false false false;
+         mkDline (lit "c") (Some (lit ">= 2")) None [] false true false;
+         mkDline (lit "d") (Some (lit "1.1")) None [] false false true;
+         mkDline (lit "implicitProducts") None None [] false true false ] /\
+  lines_of_text (mkTconfig [] [lit "implicitProducts"]) (lit "Linux64") sample_product
+  = Ok [ mkDline (lit "b") (Some (lit "1.0")) (Some (lit ">= 1.0")) [] false false false;
+         mkDline (lit "c") (Some (lit ">= 2")) None [] false true false;
+         mkDline (lit "d") None None [lit "beta"] false false false;
+         mkDline (lit "implicitProducts") None None [] false true false ] /\
+  (* outside the model: refused, never guessed *)
+  dline_of false [lit "q"; lit "--vro"; lit "current"] = Err Refused.
+Proof. split; [vm_compute; reflexivity|]. split; vm_compute; reflexivity. Qed.
+
+(* the pinned tree read every table for the RUNNING flavor; Eups.setup reads the table of a product for the flavor
+   it was found under.  g 1 is declared under the fall-back flavor generic and its table has a block for that
+   flavor: read as setup reads it (fx = true, the repaired code) the dependency on h is there, read for the
+   running flavor Linux64 (fx = false, the pinned tree) it is not *)
+Definition generic_product : dtext :=
+  mkDtext (lit "g") (lit "1") (lit "generic") (lit "/s/generic/g/1") (lit "/s")
+          (lit "if (flavor == generic) {
+   setupRequired(h)
+}
+").
+
+Example table_flavor_refuted_pinned :
+  dtables_of_text (mkTconfig [] []) true (lit "Linux64") [generic_product]
+  = Ok [ ((lit "g", lit "1"), [mkDline (lit "h") None None [] false false false]) ] /\
+  dtables_of_text (mkTconfig [] []) false (lit "Linux64") [generic_product] = Ok [ ((lit "g", lit "1"), []) ].
+Proof. split; vm_compute; reflexivity. Qed.
